@@ -1,4 +1,4 @@
-(* Main.v — the front of xcp's main() (src/main.rs:78-150, after the three
+(* Main.v — the front of xcp's main() (src/main.rs:78-165, after the four
    validation repairs): option conflict, argument splitting, glob expansion
    (an oracle), and the validation block that runs before the driver starts.
    File-system state enters through the oracles
@@ -22,6 +22,7 @@ Definition E_MISSING : N := 7.         (* Source does not exist *)
 Definition E_DIR_NOT_RECURSIVE : N := 8.
 Definition E_SAME : N := 9.            (* source == dest / source same as mapped destination *)
 Definition E_NO_NAME : N := 10.        (* Failed to find source directory name *)
+Definition E_DUP_TARGET : N := 11.     (* Multiple sources map to the same destination *)
 
 (* glob oracle: per pattern, Some matches or None for a pattern error *)
 Definition glob_result := option (list path).
@@ -58,12 +59,18 @@ Section Validate.
              else None
          end.
 
-  Fixpoint check_sources (dest : path) (dest_is_dir : bool) (ss : list path) : option N :=
+  (* `seen`: the mapped destinations of the sources already checked (the Vec `targets`) *)
+  Fixpoint check_sources (dest : path) (dest_is_dir : bool) (seen : list path) (ss : list path) : option N :=
     match ss with
     | [] => None
     | s :: r => match check_source dest dest_is_dir s with
                 | Some e => Some e
-                | None => check_sources dest dest_is_dir r
+                | None =>
+                    match target_base dest s dest_is_dir (o_no_target_dir o) with
+                    | Some tb => if existsb (path_eqb tb) seen then Some E_DUP_TARGET
+                                 else check_sources dest dest_is_dir (tb :: seen) r
+                    | None => check_sources dest dest_is_dir seen r      (* not reached: check_source rejects it *)
+                    end
                 end
     end.
 
@@ -76,7 +83,7 @@ Section Validate.
         if negb dd && (match rest with [] => true | _ => false end) && is_dir s0 && exists_ dest
         then Some E_DIR_TO_FILE
         else if negb dd && (match rest with [] => false | _ => true end) then Some E_MULTI_NOT_DIR
-        else check_sources dest (exists_ dest && dd) sources
+        else check_sources dest (exists_ dest && dd) [] sources
     end.
 
   (* main() up to the start of the driver: None = proceed *)
@@ -119,5 +126,9 @@ Section Invalid.
                           exists_ tb = true -> is_dir tb = false -> Invalid sources dest
   | InvSame s tb : In s sources -> mapped dest s = Some tb ->
                    (path_eqb s tb = true \/ (exists_ tb = true /\ same_file s tb = true)) -> Invalid sources dest
-  | InvSameDest s : In s sources -> path_eqb s dest = true -> Invalid sources dest.
+  | InvSameDest s : In s sources -> path_eqb s dest = true -> Invalid sources dest
+  (* two sources (at any two positions) map onto the same destination entry *)
+  | InvDupTarget l1 s1 l2 s2 tb1 tb2 : sources = l1 ++ s1 :: l2 -> In s2 l2 ->
+                   mapped dest s1 = Some tb1 -> mapped dest s2 = Some tb2 -> path_eqb tb2 tb1 = true ->
+                   Invalid sources dest.
 End Invalid.
